@@ -1,6 +1,6 @@
 (** C05 — Transient storage failures never leave gaps or false acknowledgements. *)
 From Coq Require Import List NArith Bool.
-From LS Require Import Faults.Resumable Faults.Upload Faults.Compact Faults.Proofs.
+From LS Require Import Faults.Resumable Faults.Upload Faults.Compact Faults.Behind Faults.Proofs.
 Import ListNotations.
 Local Open Scope N_scope.
 
@@ -71,3 +71,47 @@ Theorem compact_no_partial_publish : forall (B : Type) (merge : list (list B) ->
      r <> COk /\ c_dst st' = c_dst st /\ c_cache st' = c_cache st).
 Proof. exact Proofs.compact_no_partial_publish. Qed.
 Print Assumptions compact_no_partial_publish.
+
+(** Histories that start with a (re)open in ANY local state (in step, meta
+    directory lost, older database file): an acknowledged SyncAndWait — under any
+    fault schedule, including faults on the calls made by init's
+    checkDatabaseBehindReplica — means local and remote positions are EQUAL, all
+    local files above the retention floor are stored, the remote level 0 is one
+    run after every client call. *)
+Theorem ack_means_in_sync : forall fl b s la, breach fl b ->
+  maxl (local_after_init b s) <= maxl la ->
+  let '(b', o) := sync_wait b s la in
+  so_err o = E_NIL ->
+  so_pos o = maxl (u_remote (b_u b')) /\ maxl (u_remote (b_u b')) = maxl la /\ u_local (b_u b') = la /\
+  (forall t, In t la -> fl <= t -> In t (u_remote (b_u b'))) /\
+  gapless (u_remote (b_u b')) /\ Forall (fun c => gapless (c_after c)) (so_trace o).
+Proof. exact Proofs.ack_means_in_sync. Qed.
+Print Assumptions ack_means_in_sync.
+
+(** A failed first client call of init (the level-0 listing) always surfaces as
+    an error of SyncAndWait and leaves init to be retried. *)
+Theorem init_listing_error_propagates : forall b s la o0,
+  b_init b = false -> b_corrupt b = false ->
+  s = o0 :: nil \/ (exists tl, s = o0 :: tl) -> o0 <> Ok ->
+  so_err (snd (sync_wait b s la)) = E_CLIENT /\ b_init (fst (sync_wait b s la)) = false.
+Proof. exact Proofs.init_listing_error_propagates. Qed.
+Print Assumptions init_listing_error_propagates.
+
+(** Once faults have stopped, the next SyncAndWait after a (re)open succeeds
+    (unless the local baseline file is corrupt, see the refuted lemma below). *)
+Theorem catch_up_after_reopen : forall fl b la, breach fl b ->
+  b_corrupt b = false ->
+  maxl la <> 0 ->
+  maxl (local_after_init b []) <= maxl la ->
+  (forall t, maxl (u_remote (b_u b)) < t <= maxl la -> In t la) ->
+  so_err (snd (sync_wait b [] la)) = E_NIL.
+Proof. exact Proofs.catch_up_after_reopen. Qed.
+Print Assumptions catch_up_after_reopen.
+
+(** Finding (known finding C05/truncated-baseline-...): a short read of the
+    baseline file fetched by checkDatabaseBehindReplica is published locally and
+    every later SyncAndWait fails, faults or not. *)
+Theorem catch_up_after_short_baseline_read_refuted :
+  exists fl b, breach fl b /\ forall la, so_err (snd (sync_wait b [] la)) <> E_NIL /\ fst (sync_wait b [] la) = b.
+Proof. exact BProofs.catch_up_after_short_baseline_read_refuted. Qed.
+Print Assumptions catch_up_after_short_baseline_read_refuted.
